@@ -323,6 +323,10 @@ func (pc *PkgContracts) addItem(it *rawItem, path string) error {
 		switch it.kind {
 		case "func":
 			if old, ok := pc.Funcs[fc.Key]; ok {
+				if len(old.Requires)+len(old.Ensures)+len(old.Modifies) > 0 || old.Trusted != "" || old.ModGiven {
+					// a second contract for the same function would silently replace the first (and change what its callers assume)
+					return fmt.Errorf("%s:%d: second contract for %s (first at line %d); use a #impl key for a body-only contract", path, it.line, fc.Key, old.Line)
+				}
 				// merge loops declared earlier
 				for k, v := range old.Loops {
 					fc.Loops[k] = v
